@@ -101,8 +101,31 @@ type Sim struct {
 	inflight        int64
 }
 
+// marshalLive marshals the engine's live table. The engine hands it out by pointer and keeps writing it from other
+// goroutines (DESIGN section 1): the encoder can be torn (a slice shrinks under it) and panic. Such a read is simply
+// taken again; only a read that is torn three times in a row is let through (and classified by the framework).
+func marshalLive(t *pt.Table) (b []byte, err error) {
+	for try := 0; ; try++ {
+		func() {
+			defer func() {
+				if r := recover(); r != nil {
+					if try >= 2 {
+						panic(r)
+					}
+					b, err = nil, fmt.Errorf("torn read: %v", r)
+				}
+			}()
+			b, err = json.Marshal(t)
+		}()
+		if err == nil || try >= 2 {
+			return b, err
+		}
+		time.Sleep(50 * time.Microsecond)
+	}
+}
+
 func cloneTable(t *pt.Table) (*pt.Table, []byte) {
-	b, err := json.Marshal(t)
+	b, err := marshalLive(t)
 	if err != nil {
 		return nil, nil
 	}
@@ -296,7 +319,7 @@ func (s *Sim) Table() *pt.Table {
 
 // TableJSON returns the engine table's JSON.
 func (s *Sim) TableJSON() []byte {
-	b, _ := json.Marshal(s.TE.GetTable())
+	b, _ := marshalLive(s.TE.GetTable())
 	return b
 }
 
